@@ -1,16 +1,7 @@
-import WK.Model.ReplDrv
+import WK.Spec.C01
 open WK WK.Repl
-
-structure DS where
-  sys : Sys := Sys.default
-  tbl : List Dig := []
-
-def c01Step (st : DS) (op impl : String) : DS × String × String :=
-  match parseOp op with
-  | none => (st, "bad-op", "ok")
-  | some o =>
-    let (sys, res) := step st.sys o
-    let (tbl, out) := renderAll st.tbl sys res
-    ({ sys := sys, tbl := tbl }, out, "ok")
-
-def main : IO Unit := Drv.main { init := {}, step := c01Step }
+/-
+  C01 driver: model output (compared with the implementation) + the C01 judge on the
+  implementation's observation.  ops/output: see harness/C01/repl_core.go.
+-/
+def main : IO Unit := Drv.main { init := ({} : DS), step := replStep WK.C01.judge }
